@@ -21,8 +21,9 @@ def inside(d, p):          # reference containment: equal, or below it component
 comps = ["a", "b", "ab"]
 paths = ["/".join(t) for k in range(1, 4) for t in itertools.product(comps, repeat=k)]
 paths = paths[:39] if tier == "quick" else paths
+sel_universe = [""] + paths          # "" is the tree root: it contains every path
 for k in range(0, 4):
-    for sel in itertools.combinations(paths, k):
+    for sel in itertools.combinations(sel_universe, k):
         n += 1
         got = osutils.minimum_path_selection(list(sel))
         if k >= 2:
